@@ -85,6 +85,17 @@ Proof.
   intros u v Hu Huv Hv. apply FHVST_strictly_monotone; assumption.
 Qed.
 
+(* the numerically inverted loading is strictly increasing in the pressure: roots for a lower pressure lie strictly lower *)
+Lemma FHVST_loading_increasing n_m K a1v p q x y : FHVST_bounds n_m K a1v -> 0 < n_m -> 0 < K -> -1 < a1v ->
+  0 <= x < n_m -> 0 <= y < n_m ->
+  FHVST_loading_spec n_m K a1v p x -> FHVST_loading_spec n_m K a1v q y -> p < q -> x < y.
+Proof.
+  unfold FHVST_loading_spec. intros HB Hn HK Ha Hx Hy Ex Ey Hpq.
+  destruct (Rlt_le_dec x y) as [Hlt|Hle]; [exact Hlt|exfalso].
+  destruct (Req_dec y x) as [->|Hne]; [lra|].
+  assert (H := FHVST_strictly_monotone n_m K a1v y x HB Hn HK Ha). lra.
+Qed.
+
 (* ---------------- WVST *)
 Lemma WVST_zero n_m K L1v Lv1 : n_m <> 0 -> K <> 0 -> L1v <> 0 ->
   WVST_pressure_def n_m K L1v Lv1 0 /\ WVST_pressure n_m K L1v Lv1 0 = 0.
